@@ -317,6 +317,9 @@ def run(P, R, tier):
     # a section read from the file counts as present, so that dropping it later reverts its children
     from . import c16 as _c16
     _c16.duplicates(P, Remap(R, {'C16.MPT.1': 'C17.MPT.10'}))
+    # a rule that lost a criterion in the new file has lost it in the rebuilt table
+    from . import c11 as _c11
+    _c11.zeroed_entries(P, R, _c11.compile_pass(P, Remap(R, {})), 'C17.MPT.11')
     # a slot emptied by a reload must not hide the services configured behind it
     from . import c06
     xq, b = c06.builder(P)
